@@ -9,7 +9,7 @@
 From Coq Require Import List NArith Lia Bool PeanoNat.
 From Coq Require Import ZifyBool ZifyN ZifyNat.
 From Minimq Require Import Bytes Varint Utf8 Props Ser De Reader Spec Arena Core Show Machine Parse Run Util Lts Refine
-  ArenaLemmas ArenaOps Inv Quota Status Persist Frames Limits Reach WireInv Chunking Wire Measure Terminate KeepAlive ConnectOk Healthy.
+  ArenaLemmas ArenaOps Inv Quota Status Persist Frames Limits Reach WireInv Chunking Wire Measure Terminate KeepAlive ConnectOk PingQuiet Healthy.
 Import ListNotations.
 Local Open Scope N_scope.
 
@@ -342,7 +342,6 @@ Qed.
 
 (* ---------------------------------------------------------------- the machine: one engine step conserves wire ++ owed *)
 Definition total (w : world) : bytes := w_wire w ++ owed (s_ob (w_sess w)).
-Definition not_failed {A} (r : outcome A) : Prop := match r with OFail _ => False | _ => True end.
 
 Lemma flush_current_conserves : forall p now w w' r,
   owed (s_ob (fst (complete_flush (w_sess w) p now))) = owed (s_ob (w_sess w)) ->
@@ -388,77 +387,6 @@ Proof.
   - inversion H; subst. contradiction.
 Qed.
 
-(* ---------------------------------------------------------------- time and the keep-alive timer through a step *)
-Definition PQ (w : world) : Prop :=
-  ka_ok (s_rt (w_sess w)) /\ forall d, rt_next_ping (s_rt (w_sess w)) = Some d -> w_now w < d.
-
-Lemma broker_feed_now : forall w a, w_now (broker_feed w a) = w_now w.
-Proof. intros. destruct (broker_feed_fields w a) as [_ [_ [_ [H _]]]]. exact H. Qed.
-
-Lemma io_write_now : forall bs w, w_now (fst (io_write bs w)) = w_now w.
-Proof.
-  intros bs w. unfold io_write. destruct (N.eqb (lenN bs) 0); [reflexivity|]. destruct (next_ev w) as [[k amt] rest].
-  destruct (N.eqb k 1); [reflexivity|]. destruct (N.eqb k 2); [reflexivity|]. destruct (N.eqb k 3); [reflexivity|].
-  cbv zeta. cbn [fst]. rewrite broker_feed_now. reflexivity.
-Qed.
-Lemma io_flush_now : forall w, w_now (fst (io_flush w)) = w_now w.
-Proof. intros w. unfold io_flush. destruct (next_ev w) as [[k a] rest]. destruct (N.eqb k 1); [reflexivity|]. destruct (N.eqb k 3); reflexivity. Qed.
-
-Lemma complete_flush_pq : forall s k now, ka_ok (s_rt s) ->
-  ka_ok (s_rt (fst (complete_flush s k now))) /\ forall d, rt_next_ping (s_rt (fst (complete_flush s k now))) = Some d -> now < d.
-Proof.
-  intros s k now Hk. unfold complete_flush.
-  set (r1 := match k with FCtl CPing => rt_with_timers (s_rt s) (rt_next_ping (s_rt s)) (Some (now + ROUND_TRIP_TIMEOUT_MS)) | _ => s_rt s end).
-  assert (K1 : ka_ok r1) by (unfold r1; destruct k as [[| | |]| |]; exact Hk).
-  destruct (match k with FCtl a => flush_control (s_ob s) a | FRel pid => flush_release (s_ob s) pid | FRet pid => flush_retained (s_ob s) pid end) as [o b].
-  cbn [fst set_rt set_ob s_rt]. split; [exact K1|apply noa_np; exact K1].
-Qed.
-
-Lemma flush_current_pq : forall p w w' b, PQ w -> flush_current p (w_now w) w = (w', ODone b) -> PQ w' /\ w_now w' = w_now w.
-Proof.
-  intros p w w' b [Hk Hp] H. unfold flush_current in H. destruct (w_live w); cbn [negb] in H; [|discriminate].
-  destruct (io_flush w) as [w1 fr] eqn:Ef. destruct (io_flush_ghost _ _ _ Ef) as [Hs _].
-  pose proof (io_flush_now w) as Nw. rewrite Ef in Nw. cbn [fst] in Nw.
-  destruct fr; [|discriminate|discriminate].
-  destruct (complete_flush (w_sess w1) p (w_now w)) as [s3 f3] eqn:Ec.
-  assert (Es3 : s3 = fst (complete_flush (w_sess w) p (w_now w))) by (rewrite <- Hs, Ec; reflexivity).
-  destruct f3; [|discriminate]. inversion H; subst w' b.
-  destruct (complete_flush_pq (w_sess w) p (w_now w) Hk) as [K3 P3].
-  unfold PQ. cbn [w_sess w_now upd_sess]. rewrite Es3, Nw. split; [split; [exact K3|exact P3]|reflexivity].
-Qed.
-
-Lemma step_pq : forall st w w' b, PQ w -> perform_outbound_step st (w_now w) w = (w', ODone b) -> PQ w' /\ w_now w' = w_now w.
-Proof.
-  intros st w w' b Hq H. unfold perform_outbound_step in H.
-  destruct (prepare_step (w_sess w) st) as [p bs written len|p| |e] eqn:Ep.
-  - destruct (w_live w) eqn:Hl; cbn [negb] in H; [|discriminate].
-    destruct (io_write (dropN written bs) w) as [w1 r0] eqn:Ew.
-    destruct (io_write_ghost _ _ _ _ Ew) as [Hs _].
-    pose proof (io_write_now (dropN written bs) w) as Nw. rewrite Ew in Nw. cbn [fst] in Nw.
-    destruct r0 as [n| |]; [|discriminate|discriminate].
-    destruct (N.eqb n 0); [discriminate|].
-    destruct (set_written (w_sess w1) p (written + n) len) as [s2 found] eqn:Es.
-    assert (Es2 : s2 = fst (set_written (w_sess w) p (written + n) len)) by (rewrite <- Hs, Es; reflexivity).
-    destruct (set_written_fields (w_sess w) p (written + n) len) as [Rt2 _]. rewrite <- Es2 in Rt2.
-    assert (Q2 : PQ (upd_sess w1 s2)).
-    { destruct Hq as [Hk Hp]. unfold PQ. cbn [w_sess w_now upd_sess]. rewrite Rt2, Nw. split; assumption. }
-    destruct (negb found); [discriminate|].
-    destruct (written + n <? len); [inversion H; subst; split; [exact Q2|exact Nw]|].
-    assert (N2 : w_now (upd_sess w1 s2) = w_now w) by exact Nw.
-    rewrite <- N2 in H. destruct (flush_current_pq _ _ _ _ Q2 H) as [Q3 N3]. split; [exact Q3|now rewrite N3].
-  - now apply flush_current_pq in H.
-  - inversion H; subst. split; [exact Hq|reflexivity].
-  - discriminate.
-Qed.
-
-Lemma pq_no_ping : forall w, PQ w -> maybe_queue_pingreq (w_sess w) (w_now w) = (w_sess w, None).
-Proof.
-  intros w [_ Hnp]. unfold maybe_queue_pingreq, should_queue_pingreq.
-  assert (Hdue : match rt_next_ping (s_rt (w_sess w)) with Some d => d <=? w_now w | None => false end = false).
-  { destruct (rt_next_ping (s_rt (w_sess w))) as [d|] eqn:En; [|reflexivity]. specialize (Hnp d eq_refl). apply N.leb_gt. exact Hnp. }
-  rewrite Hdue. rewrite andb_false_r. reflexivity.
-Qed.
-
 (* ---------------------------------------------------------------- flush_outbound on ANY transport *)
 (* If the drain the user operations perform (publish, subscribe, unsubscribe run it before and after queueing) comes to
    its end, then — however the transport cut the writes into pieces — the bytes it accepted are exactly `owed`, and
@@ -474,7 +402,7 @@ Proof.
     destruct r as [b|e| | |]; try discriminate.
     assert (I2 : WInv (w_sess w2)).
     { pose proof (perform_outbound_step_wq st (w_now w) w En) as Hwq. rewrite E2 in Hwq. eapply WInv_wq; [exact Hwq|exact I]. }
-    destruct (step_pq _ _ _ _ Hq E2) as [Q2 _].
+    destruct (step_pq _ _ _ _ I En Hq E2 Logic.I) as [Q2 _].
     pose proof (step_conserves _ _ _ _ _ I En E2 Logic.I) as Hc. unfold total in Hc.
     destruct (IH w2 w' I2 Q2 H) as [Hw Hnone]. split; [|exact Hnone]. rewrite Hw, Hc. reflexivity.
   - inversion H; subst w'. split; [|exact En]. rewrite (owed_no_step _ En), app_nil_r. reflexivity.
@@ -489,7 +417,7 @@ Proof.
   { unfold process_received. unfold NA in Hna. rewrite Hna. reflexivity. }
   rewrite Ep in H. unfold NA in Hna. rewrite Hna in H.
   destruct (Hd_service w Hh) as [Ht Hq]. unfold service in H. rewrite Ht, Hq in H. rewrite upd_sess_id in H.
-  assert (I : WInv (w_sess w)) by (destruct Hh as [_ [_ [I _]]]; exact I).
+  assert (I : WInv (w_sess w)) by (destruct Hh as [[_ [_ [I _]]] _]; exact I).
   destruct (next_step (s_ob (w_sess w))) as [st|] eqn:En.
   - destruct (healthy_perform st w Hh En) as [w2 [E2 [H2 [R2 N2]]]]. rewrite E2 in H.
     pose proof (step_conserves _ _ _ _ _ I En E2 Logic.I) as Hc. unfold total in Hc.
